@@ -1,6 +1,7 @@
 package catalog
 
 import (
+	schema "github.com/jsightapi/jsight-schema-core"
 	"github.com/jsightapi/jsight-schema-core/json"
 	"github.com/jsightapi/jsight-schema-core/notations/jschema"
 	"github.com/jsightapi/jsight-schema-core/notations/jschema/ischema"
@@ -66,6 +67,61 @@ func (s *JSchemaObject) appendPropertiesFromObject(m map[string]ischema.Node) {
 				n.SetParent(nil)
 				m[v.Key] = n
 			}
+		}
+	}
+}
+
+// TypePropertiesAST returns the AST nodes of the first level properties which
+// the schema takes from user types: through a reference to a type (shortcut) or
+// through the allOf rule. The nodes of a user type are compiled, so an AST built
+// from them shows the constraints of the compiler instead of the rules which
+// were written; the AST which the type got when it was loaded has the rules.
+func (s *JSchemaObject) TypePropertiesAST(ut map[string]*jschema.JSchema) map[string]schema.ASTNode {
+	m := make(map[string]schema.ASTNode, 5)
+	seen := make(map[string]struct{}, 5)
+	for _, name := range s.parentTypeNames() {
+		appendTypePropertiesAST(m, name, ut, seen)
+	}
+	return m
+}
+
+// parentTypeNames the names of the user types from which the root of the schema
+// takes properties: the referenced types and the types of the allOf rule.
+func (s *JSchemaObject) parentTypeNames() []string {
+	names := jschema.UserTypeNamesFromEachTypeConstraint(s.Inner.RootNode())
+	if s.ASTNode.Rules == nil {
+		return names
+	}
+	if r, ok := s.ASTNode.Rules.Get("allOf"); ok {
+		if r.Value != "" {
+			names = append(names, r.Value)
+		}
+		for _, i := range r.Items {
+			names = append(names, i.Value)
+		}
+	}
+	return names
+}
+
+func appendTypePropertiesAST(
+	m map[string]schema.ASTNode,
+	name string,
+	ut map[string]*jschema.JSchema,
+	seen map[string]struct{},
+) {
+	ss, ok := ut[name]
+	if _, was := seen[name]; !ok || was {
+		return
+	}
+	seen[name] = struct{}{}
+
+	t := JSchemaObject{JSchema: ss}
+	for _, n := range t.parentTypeNames() {
+		appendTypePropertiesAST(m, n, ut, seen)
+	}
+	for _, c := range ss.ASTNode.Children {
+		if !c.IsKeyShortcut {
+			m[c.Key] = c
 		}
 	}
 }
